@@ -1,5 +1,6 @@
 import Invoke.Model.RunnerIO
 import Invoke.Model.Decode
+import Invoke.Model.Terminal
 import Driver.Util
 open Inv Drv
 
@@ -38,6 +39,16 @@ def b (x : String) : Bool := x == "1"
 def step' (line : String) : String :=
   match line.splitOn "|" with
   | ["D", chunks] => encChars (utf8.decodeIncremental ((splitNE chunks ",").map decChunk))
+  | ["T", spec] =>
+    -- isTty,fg,echo,icanon,vmin,vtime,raise  ->  touches,duringCbreak,restored,raised
+    match spec.splitOn "," with
+    | [it, fg, ec, ic, vm, vt, rz] =>
+      let t : TtyEnv := { isTty := b it, foreground := b fg,
+                          attrs := { echo := b ec, icanon := b ic, vmin := vm.toNat?.getD 0, vtime := vt.toNat?.getD 0, rest := 0 } }
+      let r := characterBuffered (stdSetcbreak id) (fun a => (a, b rz)) t
+      let sh (x : Bool) : String := if x then "1" else "0"
+      ",".intercalate [sh (touches t), sh (cbreakAlreadySet r.during), sh (r.after == t.attrs), sh r.raised]
+    | _ => "bad-tty"
   | ["W", chunks] => encChars (utf8.decodeWhole ((splitNE chunks ",").map decChunk).flatten)
   | [flags, outc, errc, ins, sched] =>
     match (match flags.splitOn "," with
